@@ -269,9 +269,10 @@ Proof.
   all: unfold fx_ended; world_eq.
 Qed.
 
-Theorem stop_agreement f c w :
+Theorem stop_agreement_full f c w :
   settled_on w c -> pstate w <> Stopped -> consume w = false ->
   let w' := run_world shuf f w [Stop; Deliver; Deliver] in
+  settled_on w' c /\ stable w w' /\
   current w' = Some c /\ pstate w' = Stopped /\ pending w' = None /\ queue w' = []
   /\ a_uri w' = None /\ a_state w' = Stopped /\ World.tl w' = World.tl w.
 Proof.
@@ -303,7 +304,17 @@ Proof.
   assert (G3 : get_time_position w3 = (Ok (a_pos w3), fx_gtp w3)).
   { apply (gtp_run w3 c); [exact Hpp|exact Hc|exact Hb]. }
   rewrite (stepw_eq shuf f Deliver w2' RNone w3 _ _ (run_op_bind_none _ w2' tt w3 D2) G3).
+  split; [constructor; try reflexivity; try assumption|].
+  split; [unfold stable; repeat split; try reflexivity; try assumption;
+           try (intros Hs0; cbn; rewrite ?Hs0; cbn; rewrite ?Hs0; first [reflexivity|assumption])|].
   repeat split; try reflexivity; assumption.
 Qed.
+
+Theorem stop_agreement f c w :
+  settled_on w c -> pstate w <> Stopped -> consume w = false ->
+  let w' := run_world shuf f w [Stop; Deliver; Deliver] in
+  current w' = Some c /\ pstate w' = Stopped /\ pending w' = None /\ queue w' = []
+  /\ a_uri w' = None /\ a_state w' = Stopped /\ World.tl w' = World.tl w.
+Proof. intros. cbv zeta. eapply proj2. eapply proj2. eapply stop_agreement_full; eassumption. Qed.
 
 End P.
